@@ -5,7 +5,7 @@ code base (stale-after-callback, unlink-before-call for one-shot objects,
 unregister reaches every holder, no callback while a kernel batch is live).
 Not decided: sufficiency over all histories and kernel behaviours.
 """
-from ..core import (names_of, same_value, AnalysisBroken, Inliner, canon, strip, strip_load, last_member, must_pass, relpath,
+from ..core import (names_of, same_value, lvalue_root, AnalysisBroken, Inliner, canon, strip, strip_load, last_member, must_pass, relpath,
                     norm_cond, walk, forward, lvalue_steps, evloc)
 from ..analyses import (is_call, holding, atoms_reading, path_to, describe, exits_of, callback_kind,
                         stale_after_callback, loops, innermost_loop, USER_OBJECT_RECORDS, locksets, held,
@@ -210,43 +210,56 @@ def stale(ctx):
 
 
 def one_shot(ctx):
+    """Since the (last) definition of the object variable whose handler is about
+    to be called, the object has been unlinked (and stamped).  Formulated on the
+    definition rather than on the loop head so that it is independent of the loop
+    form (peeled last iteration, do/while, helper per object)."""
     prog = ctx.prog
     for f in sorted(prog.all_funcs(), key=lambda f: f.q):
+        sites = {}
         for cs in [e for e in f.events() if e['ev'] == 'call' and is_cb(e) in ONE_SHOT]:
-            kind = is_cb(cs)
+            sites.setdefault((is_cb(cs), cs['loc']), []).append(cs)
+        for (kind, loc), css in sorted(sites.items()):
             rec, link, extra = ONE_SHOT[kind]
-            obj = canon(strip(cs['fnexpr'])['base'])
-            lps = loops(f)
-            h = innermost_loop(f, cs['_b'], lps)
-            if h is None:
-                raise AnalysisBroken('%s: %s handler call is not in a loop' % (f.name, kind))
-            def unlinked(e, obj=obj, rec=rec, link=link):
-                return is_call(e, ('iv_list_del', 'iv_list_del_init')) and _list_arg_member(e) == (rec, link) \
-                    and canon(e['args'][0]) == '&%s->%s' % (obj, link)
-            def tr(e, s):
-                return True if unlinked(e) else s
-            def edge(blk, si, s, h=h):
-                return False if blk.succ[si] == h else s
-            _, ev_in = forward(f, False, tr, lambda a, b: a and b, edge=edge)
-            ok = bool(ev_in.get((cs['_b'], cs['_i'])))
+            ok, ok2 = True, True
+            for cs in css:
+                objx = strip(cs['fnexpr'])['base']
+                obj = canon(objx)
+                root = lvalue_root(objx)
+                rootname = root['name'] if root is not None else None
+                def redefined(e, rootname=rootname):
+                    return e['ev'] == 'store' and strip(e['lhs']).get('k') == 'var' and strip(e['lhs'])['name'] == rootname
+                def unlinked(e, obj=obj, rec=rec, link=link):
+                    return is_call(e, ('iv_list_del', 'iv_list_del_init')) and _list_arg_member(e) == (rec, link) \
+                        and canon(e['args'][0]) == '&%s->%s' % (obj, link)
+                def tr(e, s):
+                    if redefined(e):
+                        return False
+                    return True if unlinked(e) else s
+                _, ev_in = forward(f, False, tr, lambda a, b: a and b)
+                ok = ok and bool(ev_in.get((cs['_b'], cs['_i'])))
+                if extra:
+                    def stamped(e, obj=obj, extra=extra):
+                        return e['ev'] == 'store' and last_member(e['lhs']) == (extra[0], extra[1]) \
+                            and canon(strip(e['lhs'])['base']) == obj and canon(e.get('rhs')) == extra[2]
+                    def tr2(e, s):
+                        if redefined(e):
+                            return False
+                        if stamped(e):
+                            return True
+                        if e['ev'] == 'store' and last_member(e['lhs']) == (extra[0], extra[1]) and canon(strip(e['lhs'])['base']) == obj:
+                            return False
+                        return s
+                    _, ev2 = forward(f, False, tr2, lambda a, b: a and b)
+                    ok2 = ok2 and bool(ev2.get((cs['_b'], cs['_i'])))
+            cs = css[0]
             ctx.ob('R-C01b', '%s:%s-unlinked-before-handler' % (f.name, kind), ok, loc=cs['loc'],
-                   detail='iv_list_del*(&%s->%s) precedes %s in every iteration' % (obj, link, describe(cs)),
+                   detail='iv_list_del*(&%s->%s) lies between the definition of %s and %s on every path' % (obj, link, obj, describe(cs)),
                    path=None if ok else path_to(f, cs), fn=f.q)
             if extra:
-                def stamped(e, obj=obj, extra=extra):
-                    return e['ev'] == 'store' and last_member(e['lhs']) == (extra[0], extra[1]) \
-                        and canon(strip(e['lhs'])['base']) == obj and canon(e.get('rhs')) == extra[2]
-                def tr2(e, s):
-                    if stamped(e):
-                        return True
-                    if e['ev'] == 'store' and last_member(e['lhs']) == (extra[0], extra[1]) and canon(strip(e['lhs'])['base']) == obj:
-                        return False
-                    return s
-                _, ev2 = forward(f, False, tr2, lambda a, b: a and b, edge=edge)
-                ok2 = bool(ev2.get((cs['_b'], cs['_i'])))
                 ctx.ob('R-C01b', '%s:%s-%s-stamped-before-handler' % (f.name, kind, extra[1]), ok2, loc=cs['loc'],
-                       detail='%s->%s = %s precedes the handler call in every iteration (the object reads as unregistered inside its handler)'
-                              % (obj, extra[1], extra[2]), fn=f.q)
+                       detail='%s->%s = %s precedes the handler call on every path from the definition of %s (the object reads as unregistered inside its handler)'
+                              % (obj, extra[1], extra[2], obj), fn=f.q)
 
 
 def holders(ctx):
